@@ -6,8 +6,8 @@ import (
 	"time"
 
 	"github.com/tyler-sommer/stick"
-	"github.com/tyler-sommer/stick/twig"
 	"github.com/tyler-sommer/stick/parse"
+	"github.com/tyler-sommer/stick/twig"
 
 	"verif/core"
 )
